@@ -234,17 +234,20 @@ def judge(case, part):
     if kind == "int" and len(model_items) >= 2 and all(limit is None or 1 <= limit <= 0x2100 for item in model_items for limit in item):
         # the same description as the 'Allowed characters' of a data format, judged through a Text field: a value is accepted iff every character is inside
         # an item - also one that sits in a gap between two items while its neighbours are at the outer limits
-        from cutplace import data, fields
+        from cutplace import interface
 
         try:
-            data_format = data.DataFormat("delimited")
-            data_format.set_property("allowed_characters", text)
-            field = fields.TextFieldFormat("x", False, "", "", data_format)
+            # declared in a CID, once before and once behind the field it applies to
+            fields_of_cids = []
+            for cid_rows in ([["D", "Format", "Delimited"], ["D", "Allowed characters", text], ["F", "x"]], [["D", "Format", "Delimited"], ["F", "x"], ["D", "Allowed characters", text]]):
+                cid = interface.Cid()
+                cid.read("cid", cid_rows)
+                fields_of_cids.append(cid.field_formats[0])
         except Exception as error:
             part.fail(tag % ("allowed-characters-declare-raised-" + type(error).__name__), shown, "accepted", repr(error))
             return
         inside = [v for v in probes if isinstance(v, int) and 1 <= v <= 0x2100 and intervals.accepts(model_items, v)]
-        for value in probes:
+        for value, field in [(v, f) for v in probes for f in fields_of_cids]:
             if not isinstance(value, int) or not 1 <= value <= 0x2100 or chr(value).isspace():
                 continue
             texts = [chr(value)] + ([chr(min(inside)) + chr(value) + chr(max(inside))] if inside and not chr(min(inside)).isspace() and not chr(max(inside)).isspace() else [])
